@@ -55,6 +55,11 @@ func genC14(t *rapid.T) c14Case {
 	for i := 0; i < n; i++ {
 		c.Reqs = append(c.Reqs, c14Req{Kind: rapid.SampledFrom(c14Kinds).Draw(t, "kind"), Conn: rapid.IntRange(0, c.Conns-1).Draw(t, "conn")})
 	}
+	if c.Server == "simple" && rapid.IntRange(0, 2).Draw(t, "gone?") == 0 {
+		// the client hangs up while its handler is still running: the reply cannot be written
+		at := rapid.IntRange(0, len(c.Reqs)-1).Draw(t, "goneat")
+		c.Reqs[at].Kind = "clientgone"
+	}
 	if c.Server == "nats" {
 		for i, k := 0, rapid.IntRange(0, 2).Draw(t, "nbig"); i < k; i++ {
 			at := rapid.IntRange(0, len(c.Reqs)-1).Draw(t, "bigat")
@@ -119,7 +124,7 @@ func c14FrameL(proto string, kind string, id int, size int) (frame []byte, opid 
 	}
 	var msg []byte
 	switch kind {
-	case "ok", "declared", "error", "appex", "limit413", "big":
+	case "ok", "declared", "error", "appex", "limit413", "big", "clientgone":
 		msg = thriftMessage(proto, "echo", thrift.CALL, &strStruct{Name: "echo_args", ID: 1, V: &arg})
 	case "oneway":
 		msg = thriftMessage(proto, "fire", thrift.ONEWAY, &strStruct{Name: "fire_args", ID: 1, V: &arg})
@@ -237,6 +242,8 @@ func execC14Inner(c c14Case) *ev.Failure {
 	pf := fpf(c.Proto)
 	var mu sync.Mutex
 	calls := map[string]int{}
+	goneClosed := make(chan struct{})
+	var goneOnce sync.Once
 	h := &svcHandler{
 		echo: func(ctx frugal.FContext, v string) (string, error) {
 			key := v
@@ -249,6 +256,14 @@ func execC14Inner(c c14Case) *ev.Failure {
 			mu.Lock()
 			calls[key]++
 			mu.Unlock()
+			if strings.HasPrefix(v, "clientgone:") {
+				// wait until the test has closed the caller's connection
+				select {
+				case <-goneClosed:
+				case <-time.After(5 * time.Second):
+				}
+				time.Sleep(2 * time.Millisecond)
+			}
 			switch {
 			case strings.HasPrefix(v, "big:"):
 				return strings.Repeat("a", size), nil
@@ -283,7 +298,7 @@ func execC14Inner(c c14Case) *ev.Failure {
 			continue
 		}
 		byConn[cn] = append(byConn[cn], item{i, r.Kind})
-		if r.Kind == "truncated" && c.Server == "simple" {
+		if (r.Kind == "truncated" || r.Kind == "clientgone") && c.Server == "simple" {
 			dead[cn] = true
 		}
 	}
@@ -363,6 +378,13 @@ func execC14Inner(c c14Case) *ev.Failure {
 					if it.kind == "truncated" {
 						return // nothing is asserted about this connection from here on
 					}
+					if it.kind == "clientgone" {
+						// hang up once the handler is running; its reply has nowhere to go
+						waitFor(2*time.Second, func() bool { mu.Lock(); defer mu.Unlock(); return calls[fmt.Sprintf("clientgone:%d", it.id)] > 0 })
+						conn.Close()
+						goneOnce.Do(func() { close(goneClosed) })
+						return
+					}
 					b, err := readFrame(5 * time.Second)
 					if err != nil {
 						fails[cn] = ev.Failf("no-reply", "connection %d: no reply to request %d (%s): %v", cn, it.id, it.kind, err)
@@ -380,6 +402,34 @@ func execC14Inner(c c14Case) *ev.Failure {
 			}(cn)
 		}
 		wg.Wait()
+		// whatever happened on those connections, a new connection is served
+		for cn := range fails {
+			if fails[cn] != nil {
+				return fails[cn]
+			}
+		}
+		{
+			conn, err := net.Dial("tcp", addr)
+			if err != nil {
+				return ev.Failf("harness:dial", "%v", err)
+			}
+			defer conn.Close()
+			time.Sleep(5 * time.Millisecond) // let a reply to a hung-up client fail first
+			frame, opid := c14Frame(c.Proto, "ok", 99999)
+			conn.Write(frame)
+			conn.SetReadDeadline(time.Now().Add(5 * time.Second))
+			var sz [4]byte
+			if _, err := io.ReadFull(conn, sz[:]); err != nil {
+				return ev.Failf("no-reply", "simple server: a request on a new connection opened after the scripted ones got no reply within 5s: %v", err)
+			}
+			b := make([]byte, binary.BigEndian.Uint32(sz[:]))
+			if _, err := io.ReadFull(conn, b); err != nil {
+				return ev.Failf("reply-malformed", "simple server, final connection: %v", err)
+			}
+			if f := checkReply(c.Proto, "ok", 99999, opid, b); f != nil {
+				return f
+			}
+		}
 
 	case "http":
 		ts := httptest.NewServer(frugal.NewFrugalHandlerFunc(proc, pf))
@@ -605,6 +655,8 @@ func execC14Inner(c c14Case) *ev.Failure {
 				want = 1
 			case "big":
 				want = 2 // calibration + the call itself
+			case "clientgone":
+				want = 1
 			}
 			if it.kind == "oneway" && c.Server == "simple" {
 				// processed asynchronously after the last reply was read; give it a moment
